@@ -355,28 +355,31 @@ def _full_space(seed_val: int):
     def fail(sig, msg):
         fails.append(Failure("full-space", sig, msg, {"full_space": True}))
 
-    # the first call is interrupted part-way (an exception arrives while the library enumerates, as Ctrl-C would); the next call is the
-    # one that is checked - what an interrupted call left behind must not be handed out as the enumeration
-    import signal
+    # the first call is interrupted part-way (an exception arrives while the library is handing out tokenizers, as Ctrl-C would); the next
+    # call is the one that is checked - what an interrupted call left behind must not be handed out as the enumeration. The exception is
+    # raised from the harness' side: the constructor of the enumerated class is wrapped for the duration of that first call only.
+    from maze_dataset.tokenization import MazeTokenizerModular as _MTM
 
-    class _Interrupt(Exception):
+    class _Interrupt(BaseException):
         pass
 
-    def _raise(*_a):
-        raise _Interrupt()
+    orig_init = _MTM.__init__
+    count = {"n": 0, "at": 500 + seed_val % 4000}
 
-    old = signal.signal(signal.SIGALRM, _raise)
+    def counting_init(self, *a, **kw):
+        count["n"] += 1
+        if count["n"] == count["at"]:
+            raise _Interrupt()
+        return orig_init(self, *a, **kw)
+
+    _MTM.__init__ = counting_init
     try:
-        signal.setitimer(signal.ITIMER_REAL, 6.0 + (seed_val % 7) * 3.0)
-        try:
-            get_all_tokenizers()
-            stats.labels["first-call-finished-before-the-interrupt"] += 1
-        except _Interrupt:
-            stats.labels["first-call-interrupted"] += 1
-        finally:
-            signal.setitimer(signal.ITIMER_REAL, 0)
+        get_all_tokenizers()
+        stats.labels["first-call-finished-before-the-interrupt"] += 1
+    except _Interrupt:
+        stats.labels["first-call-interrupted"] += 1
     finally:
-        signal.signal(signal.SIGALRM, old)
+        _MTM.__init__ = orig_init
     _ALL = call("C15:get_all_tokenizers", get_all_tokenizers)
     n = len(_ALL)
     if n != N_TOTAL:
